@@ -9,6 +9,7 @@ import (
 	"strconv"
 	"strings"
 	"sync/atomic"
+	"syscall"
 	"time"
 )
 
@@ -42,6 +43,8 @@ type Solver struct {
 	marker    int
 	TimeoutMs int
 	dead      bool
+	// NoFallback disables the one-shot retries on z3-new / cvc5 after an unknown answer
+	NoFallback bool
 }
 
 func NewSolver(timeoutMs int) *Solver {
@@ -52,6 +55,7 @@ func NewSolver(timeoutMs int) *Solver {
 
 func (s *Solver) start() {
 	s.cmd = exec.Command("z3", "-in", "-smt2")
+	s.cmd.SysProcAttr = &syscall.SysProcAttr{Pdeathsig: syscall.SIGKILL}
 	in, _ := s.cmd.StdinPipe()
 	out, _ := s.cmd.StdoutPipe()
 	s.cmd.Stderr = s.cmd.Stdout
@@ -214,6 +218,9 @@ func (s *Solver) Check(extra *Term, vars []*Term, wantModel bool) (SatResult, ma
 	s.roundTrip("(pop)")
 	if res == Unknown {
 		StatUnknown.Add(1)
+		if s.NoFallback {
+			return res, model
+		}
 		if r2, m2 := s.fallback(extra, vars, wantModel); r2 != Unknown {
 			return r2, m2
 		}
